@@ -4,7 +4,11 @@ import json, os, select, signal, subprocess, sys, tempfile, shutil, time, iterto
 from concurrent.futures import ThreadPoolExecutor
 
 RULE = ('scenario = tasks run with asyncio (concurrently), each task a sequence of awaited invocations (fd numbers are re-used); per '
-        'invocation: callee kind {return 1 B … 1 MiB, raise Exception, raise SystemExit/KeyboardInterrupt, os._exit at once / after the '
+        'invocation: callee kind {return 1 B … 1 MiB, raise Exception (4 ordinary classes + 16 classes the parent side of the protocol has a meaning '
+        'for or that derive from one: EOFError, two subclasses of it (one also a ValueError), OSError, BrokenPipeError, ConnectionResetError and a '
+        'subclass, ChildProcessError and a subclass, TimeoutError, ImportError, RuntimeError, AssertionError, StopAsyncIteration, LookupError, Exception '
+        '— judged: same class name, same names along the MRO, same args as the exception the callee made), return such an exception INSTANCE as a value, '
+        'raise SystemExit/KeyboardInterrupt, os._exit at once / after the '
         'work, SIGKILL self, unpicklable result, killed after send, killed in the middle of a 1 MiB send, callee that starts a process of its '
         'own (nested @in_subprocess, nested calculate_in_subprocess, plain multiprocess.Process) — compared with the result of calling the '
         'same callee directly —, callee whose process lingers 1.5 s (thorough: also 3 s) after it has reported (non-daemon thread), returning or raising}, '
@@ -19,7 +23,10 @@ RULE = ('scenario = tasks run with asyncio (concurrently), each task a sequence 
         'result (every death kind) among 1-12 siblings started in the same loop iteration that outlive it (before / between / after them), 36+ pending long '
         'invocations (more than any default thread pool has workers) that wait for a short one started after them; enumerated families + seeded random mixes '
         '(with rounds, with gates); every scenario in its own process, '
-        'watchdog 4.5 s per event loop (HANG), process group killed afterwards.  non-trivial = more than one invocation or a callee '
+        'watchdog 4.5 s per event loop (HANG), process group killed afterwards; LONG callees (0.5-0.7 s; every way an invocation can end, sync / async, both '
+        'forms, alone / concurrent / sequential) carry the ticker criterion of the non-blocking clause, judged relative to a control ticker measured in the same '
+        'runner process; every suspected failure is re-run alone up to 3 times with 3 x longer limits and counts only if it shows every time.  '
+        'non-trivial = more than one invocation or a callee '
         'that does not simply return')
 EXHAUSTIVE = {'quick': False, 'thorough': False}
 ASSUMPTIONS = [
@@ -38,9 +45,17 @@ ASSUMPTIONS = [
     'several event loops in one interpreter are modelled as G.newLoop (a new empty selector map, the finished invocations stay); that the module keeps nothing '
     'else from one invocation / one loop to the next is read off the source by the translator (Gen/SubprocModule.lean: module-level bindings, context managers, '
     'synchronisation primitives, stores through non-locals) and proved empty (no_state_between_invocations); state kept elsewhere (inside multiprocess, asyncio) is environment',
-    'the per-invocation ticker criterion (>= 10 % of the 10 ms ticks during its wall time) is applied in event loops with at most 8 concurrent chains; in the wide '
-    'scenarios (more invocations than cores) the loop is busy with the synchronous statements of the other invocations (fork, recv, join) and progress of other '
-    'tasks is witnessed by those invocations completing — HANG, outcome, pid and resource clauses are judged for every invocation of every scenario',
+    'timing-dependent observations (watchdog expiry = HANG, ticker, measured stall) never count on the strength of one run made under load: every suspected '
+    'failure (a property failure that is not a recorded finding, or a disagreement with the model) is re-run ALONE up to 3 times with watchdog and hard limit '
+    '3 times longer and counts only if it shows again every time; the first confirmed suspect establishes the violation; retries are recorded in the result '
+    '(confirm_runs, first_run) and counted in the evidence.  A seeded defect is deterministic and reproduces; scheduling noise does not',
+    'the ticker criterion of the non-blocking clause is applied to invocations whose callee deliberately takes >= 0.5 s (dedicated LONG scenarios for every '
+    'callee kind, sync / async, both forms, concurrent and sequential), in event loops with at most 8 concurrent chains, and is RELATIVE: the ticks of a 10 ms '
+    'ticker task while the invocation was pending, against what the same ticker got per second in a control phase of the same runner process right before the '
+    'scenario (plain asyncio.sleep, nothing of the library running) over the callee\'s deliberate duration; starved = less than 20 % of that; a control below '
+    '40 ticks/s (nominal ~95) means the machine is too busy: no verdict, the scenario is run again alone.  In wide scenarios (more invocations than cores) the '
+    'loop is busy with the synchronous statements of the other invocations (fork, recv, join) and progress of other tasks is witnessed by those invocations '
+    'completing — HANG, outcome, pid and resource clauses are judged for every invocation of every scenario',
 ]
 TRUSTED = [
     'kernel pipe semantics (a read end reports EOF iff no write end is open; data written to one pipe is read from that pipe only) and waitpid',
@@ -52,6 +67,13 @@ WATCHDOG = 4.5     # s: invocations still pending after this are HANG
 HARD = 9.0         # s: the scenario process itself is killed after this
 WORKERS = 12
 TICKER_MAX_CHAINS = 8
+LONG_DUR = 5            # quanta: the ticker is judged for invocations whose callee deliberately takes at least LONG_DUR * Q = 0.5 s
+TICKER_FRACTION = 0.2   # … and is starved when it ran less than this fraction of what the control ticker of the same process got per second
+CONTROL_S = 0.3         # seconds the control ticker runs before the scenario
+CONTROL_MIN_RATE = 40.0 # ticks/s (nominal: just under 100): a control below this means the machine is too busy to say anything
+CONFIRM_RUNS = 3        # a suspected failure counts only if it shows again in every one of this many runs of the scenario ALONE …
+CONFIRM_SCALE = 3       # … with watchdog and hard limit this many times longer
+CONTROL_RERUNS = 8      # scenarios whose control was starved are run again alone (once or twice), at most this many per run
 
 RUNNER = r'''
 import asyncio, gc, json, os, signal, sys, time, threading, fcntl, termios, struct
@@ -72,7 +94,58 @@ class CalleeError(Exception):
     pass
 
 
+class TruncatedStream(EOFError):
+    """an application exception that derives from EOFError (a record parser that hits the end of its input)"""
+
+
+class TruncatedRecord(TruncatedStream, ValueError):
+    pass
+
+
+class PeerGone(BrokenPipeError):
+    pass
+
+
+class WorkerLost(ChildProcessError):
+    pass
+
+
 EXC = {'ValueError': ValueError, 'KeyError': KeyError, 'CalleeError': CalleeError, 'ZeroDivisionError': ZeroDivisionError}
+# exception classes the PARENT side of the protocol has a meaning for (an empty pipe is EOFError, a broken one OSError, a dead child is
+# reported as ChildProcessError, a missing multiprocess package as ImportError, …) and classes derived from them: raised BY THE CALLEE they
+# are the callee's outcome like any other exception — the caller must get that very exception back (same class, same args).  They carry
+# their payload as ONE tuple argument (OSError gives two or three arguments a meaning of its own).
+EXC1 = {'EOFError': EOFError, 'TruncatedStream': TruncatedStream, 'TruncatedRecord': TruncatedRecord, 'OSError': OSError,
+        'BrokenPipeError': BrokenPipeError, 'ConnectionResetError': ConnectionResetError, 'PeerGone': PeerGone,
+        'ChildProcessError': ChildProcessError, 'WorkerLost': WorkerLost, 'TimeoutError': TimeoutError, 'ImportError': ImportError,
+        'RuntimeError': RuntimeError, 'AssertionError': AssertionError, 'StopAsyncIteration': StopAsyncIteration,
+        'LookupError': LookupError, 'Exception': Exception}
+EXC.update(EXC1)
+
+
+def make_exc(name, idx, pid, size):
+    if name in EXC1:
+        return EXC1[name]((idx, pid, 'p' * size))
+    return EXC[name](idx, pid, 'p' * size)
+
+
+def payload_of(e):
+    """(idx, pid, payload) of an exception made by make_exc, else None"""
+    a = e.args
+    if len(a) == 1 and isinstance(a[0], tuple):
+        a = a[0]
+    return a if len(a) == 3 and isinstance(a[0], int) and isinstance(a[2], str) else None
+
+
+def same_exception(e, name):
+    """`e` is what the callee raised / returned: an instance of (a faithful copy of) class `name` — same name, same names along the MRO
+    (dill re-creates classes defined in __main__ by value) — with the very args"""
+    a = payload_of(e)
+    if a is None or type(e).__name__ != name or name not in EXC:
+        return False
+    if [c.__name__ for c in type(e).__mro__] != [c.__name__ for c in EXC[name].__mro__]:
+        return False
+    return e.args == make_exc(name, a[0], a[1], len(a[2])).args and a[2] == 'p' * len(a[2])
 
 
 def gen_obj():
@@ -132,10 +205,12 @@ def finish(spec, idx, tag):
         if os.getpid() != PARENT:
             threading.Thread(target=linger_thread, args=(spec['linger'],)).start()
         if spec['callee'][1] == 'exc':
-            raise EXC[spec['exc']](idx, os.getpid(), 'p' * spec['size'])
+            raise make_exc(spec['exc'], idx, os.getpid(), spec['size'])
         return (idx, os.getpid(), tag, b'\xab' * spec['size'])
     if kind == 'exc':
-        raise EXC[spec['exc']](idx, os.getpid(), 'p' * spec['size'])
+        raise make_exc(spec['exc'], idx, os.getpid(), spec['size'])
+    if kind == 'retexc':
+        return make_exc(spec['exc'], idx, os.getpid(), spec['size'])       # an exception instance as the VALUE the function returns
     if kind == 'base':
         if spec['base'] == 'sysexit':
             raise SystemExit(3)
@@ -254,6 +329,15 @@ def open_conns():
 
 
 def classify(spec, idx, kind, val):
+    def ours(e, callee_kind):
+        a = payload_of(e)
+        if a is None or not isinstance(e, Exception):
+            return None
+        j = a[0]
+        if 0 <= j < len(SC['invs']) and SC['invs'][j].get('exc') == type(e).__name__ and SC['invs'][j]['callee'][-1] in callee_kind \
+                and len(a[2]) == SC['invs'][j]['size'] and same_exception(e, type(e).__name__):
+            return j, a[1]
+        return None
     if kind == 'ret':
         r = val
         if isinstance(r, tuple) and len(r) == 4 and isinstance(r[0], int) and isinstance(r[3], bytes) \
@@ -261,15 +345,16 @@ def classify(spec, idx, kind, val):
             want = SC['invs'][r[0]]['size'] if 0 <= r[0] < len(SC['invs']) else -1
             if len(r[3]) == want:
                 return ['ret', r[0]], r[1]
+        if isinstance(r, BaseException) and ours(r, ('retexc',)):
+            return ['ret', ours(r, ('retexc',))[0]], ours(r, ('retexc',))[1]
         return ['retother'], None
     e = val
+    # the callee's own exception first (it may be a ChildProcessError): recognised by its payload, its class name, the names along its MRO
+    # (dill re-creates classes defined in __main__ by value, the class object is not preserved: pickling is not modelled) and its args
+    if ours(e, ('exc',)):
+        return ['exc', ours(e, ('exc',))[0]], ours(e, ('exc',))[1]
     if isinstance(e, ChildProcessError):
         return ['cpe'], None
-    # by name: dill re-creates classes defined in __main__ by value, the class object is not preserved (pickling is not modelled)
-    if type(e).__name__ in EXC and isinstance(e, Exception) and len(e.args) == 3 and isinstance(e.args[0], int):
-        j = e.args[0]
-        if 0 <= j < len(SC['invs']) and SC['invs'][j].get('exc') == type(e).__name__ and e.args[2] == 'p' * SC['invs'][j]['size']:
-            return ['exc', j], e.args[1]
     return ['other', type(e).__name__], None
 
 
@@ -386,15 +471,37 @@ async def main(rno, chains):
     rep = {'out': outs, 'pid_differs': [None if p is None else (p != PARENT) for p in pids], 'wall': walls, 'ticks': tks,
            'order': order, 'hang': hang, 'fd_delta': fd_after, 'children_left': AT_END['kids'],
            'open_conns': AT_END['conns'], 'selector_delta': AT_END['sel'], 'errors': errors,
-           'left_after_await': lefts, 'direct': DIRECT, 'stall': round(stall[0], 3), 'rounds_run': rno + 1}
+           'left_after_await': lefts, 'direct': DIRECT, 'stall': round(stall[0], 3), 'rounds_run': rno + 1, 'control': CONTROL}
     sys.stdout.write(json.dumps(rep) + '\n')
     sys.stdout.flush()
     os._exit(0)
 
 
+async def control(seconds):
+    """the same 10 ms ticker next to a plain `asyncio.sleep`: how many ticks per second does THIS process get on THIS machine right now
+    (and what is the longest gap) when nothing of the library runs — the yardstick the ticks of the invocations are compared with"""
+    n, gap, t0 = 0, 0.0, time.monotonic()
+    last = t0
+
+    async def tick():
+        nonlocal n, gap, last
+        while True:
+            await asyncio.sleep(TICK)
+            now = time.monotonic()
+            n += 1
+            gap = max(gap, now - last)
+            last = now
+    tk = asyncio.ensure_future(tick())
+    await asyncio.sleep(seconds)
+    tk.cancel()
+    el = time.monotonic() - t0
+    return {'rate': n / el, 'gap': round(max(gap, time.monotonic() - last), 3), 'seconds': round(el, 3)}
+
+
 for _i, _spec in enumerate(SC['invs']):
     if _spec.get('gate'):
         GATES[_i] = multiprocess.Event()
+CONTROL = asyncio.run(control(SC['control'])) if SC.get('control') else None
 DIRECT = direct_calls()
 for _rno, _chains in enumerate(ROUNDS):
     asyncio.run(main(_rno, _chains))
@@ -410,7 +517,7 @@ def inv(callee, dur=1, size=16, big=None, is_async=False, form='deco', exc='Valu
     if big is None:
         big = size > 60000
     d = {'callee': list(callee), 'dur': dur, 'size': size, 'big': bool(big), 'async': bool(is_async), 'form': form}
-    if kind == 'exc' or callee == ['linger', 'exc']:
+    if kind in ('exc', 'retexc') or callee == ['linger', 'exc']:
         d['exc'] = exc
     if kind == 'linger':
         d['linger'] = linger          # seconds the child stays alive after `_inner` has sent
@@ -486,6 +593,10 @@ DEATHS = [['death', 'beforeRun'], ['death', 'osExit'], ['death', 'signal'], ['ba
 SPAWNS = [['spawn', 'deco'], ['spawn', 'func'], ['spawn', 'process']]
 LINGER_Q, LINGER_T = 1.5, 3.0      # seconds a lingering child outlives its send (quick / additionally in thorough)
 EXCS = ['ValueError', 'KeyError', 'CalleeError', 'ZeroDivisionError']
+# classes the parent side of the protocol handles / raises itself, and classes derived from them (see the runner)
+EXCS_PROTOCOL = ['EOFError', 'TruncatedStream', 'TruncatedRecord', 'OSError', 'BrokenPipeError', 'ConnectionResetError', 'PeerGone',
+                 'ChildProcessError', 'WorkerLost', 'TimeoutError', 'ImportError', 'RuntimeError', 'AssertionError', 'StopAsyncIteration',
+                 'LookupError', 'Exception']
 SIZES = [1, 4096, 60000, 65537, 1 << 20]
 
 
@@ -495,7 +606,7 @@ def rand_inv(rng, allow_death=True, maxdur=4):
     if r < 0.4 or not allow_death and r < 0.7:
         return inv(['ret'], size=rng.choice(SIZES + [16, 16]), **common)
     if r < 0.6 or not allow_death:
-        return inv(['exc'], exc=rng.choice(EXCS), size=rng.choice([1, 16, 70000]), **common)
+        return inv(['exc'], exc=rng.choice(EXCS + EXCS_PROTOCOL), size=rng.choice([1, 16, 70000]), **common)
     if r < 0.86:
         c = rng.choice(DEATHS)
         return inv(c, base=rng.choice(['sysexit', 'kbd']), **common)
@@ -513,6 +624,31 @@ def cases(rng, tier):
     out.append(scenario([[inv(['ret'], dur=0, size=16)]], 'single-ret-instant'))
     for k, e in enumerate(EXCS[:2] if not thorough else EXCS):
         out.append(scenario([[inv(['exc'], exc=e, is_async=(k % 2 == 0), size=(16, 70000)[k % 2])]], 'single-exc'))
+    # (a0) LONG callees (0.5-0.7 s): the invocations the ticker criterion of "while it is pending the event loop keeps running other tasks" is
+    #      judged on — every way an invocation can end, sync / async callee, both forms, alone, concurrently, one after the other
+    for k, (is_async, form) in enumerate(combos := list(itertools.product([False, True], ['deco', 'func']))):
+        out.append(scenario([[inv(['ret'], dur=LONG_DUR + k % 2, is_async=is_async, form=form, size=(16, 70000)[k % 2])]], 'long-single'))
+    long_kinds = [['exc'], ['death', 'osExit'], ['death', 'signal'], ['base'], ['unpicklable'], ['aftersend'], ['spawn', 'func']]
+    for k, c in enumerate(long_kinds if thorough else long_kinds[:3]):
+        out.append(scenario([[inv(c, dur=LONG_DUR, is_async=(k % 2 == 0), form=('deco', 'func')[k % 2])]], 'long-single'))
+    out.append(scenario([[inv(['ret'], dur=LONG_DUR)], [inv(['exc'], dur=LONG_DUR + 2, is_async=True, form='func')], [inv(['death', 'osExit'], dur=LONG_DUR + 1)]], 'long-concurrent'))
+    out.append(scenario([[inv(['ret'], dur=LONG_DUR, form='func'), inv(['ret'], dur=LONG_DUR, is_async=True)]], 'long-sequence'))
+    if thorough:
+        for k in range(12):
+            out.append(scenario([[rand_inv(rng) | {'dur': LONG_DUR + rng.randint(0, 2)} for _ in range(rng.randint(1, 2))] for _ in range(rng.randint(1, 4))], 'long-random'))
+    # (a1) the callee raises an exception of a class the PARENT side of the protocol has a meaning for (EOFError: empty pipe; OSError family:
+    #      broken pipe; ChildProcessError: what the library reports for a dead child; ImportError, …) or of a class derived from one: it is the
+    #      callee's outcome and must come back as that very exception (class, MRO, args) — sync and async callee, @in_subprocess and
+    #      calculate_in_subprocess; and a callee that RETURNS such an exception instance gets it back as a value
+    for k, e in enumerate(EXCS_PROTOCOL):
+        for is_async, form in (combos if thorough or k < 3 else [combos[k % 4], combos[(k + 3) % 4]]):
+            out.append(scenario([[inv(['exc'], exc=e, dur=0, is_async=is_async, form=form, size=(16, 70000)[(k + is_async) % 2])]], 'single-exc-protocol-class'))
+    for k, e in enumerate(EXCS_PROTOCOL if thorough else EXCS_PROTOCOL[:4] + ['ChildProcessError', 'Exception']):
+        out.append(scenario([[inv(['retexc'], exc=e, dur=0, is_async=(k % 2 == 1), form=('deco', 'func')[k % 2])]], 'single-returns-exception-instance'))
+    out.append(scenario([[inv(['exc'], exc='EOFError', dur=1)], [inv(['death', 'osExit'], dur=1)], [inv(['exc'], exc='ChildProcessError', dur=1, is_async=True)],
+                         [inv(['retexc'], exc='TruncatedStream', dur=2, form='func')], [inv(['exc'], exc='PeerGone', dur=0, form='func')]], 'concurrent-exc-protocol-class'))
+    out.append(scenario([[inv(['exc'], exc='TruncatedRecord', dur=0), inv(['unpicklable'], dur=0), inv(['exc'], exc='EOFError', dur=0, is_async=True, form='func')]],
+                        'sequence-exc-protocol-class'))
     for k, c in enumerate(DEATHS):
         out.append(scenario([[inv(c, base='sysexit', is_async=(k % 2 == 1))]], 'single-death'))
     out.append(scenario([[inv(['base'], base='kbd')]], 'single-death'))
@@ -653,6 +789,13 @@ def search(rng, tier, near):
     for c in DEATHS:
         out.append(scenario([[inv(c, dur=1)]], 'search'))
     out.append(scenario([[inv(['exc'], dur=1)]], 'search'))
+    for is_async, form in itertools.product([False, True], ['deco', 'func']):
+        out.append(scenario([[inv(['ret'], dur=LONG_DUR + 1, is_async=is_async, form=form)]], 'search'))
+        out.append(scenario([[inv(['exc'], dur=LONG_DUR, is_async=is_async, form=form)], [inv(['ret'], dur=LONG_DUR + 2)]], 'search'))
+    for e in EXCS_PROTOCOL:
+        for is_async, form in itertools.product([False, True], ['deco', 'func']):
+            out.append(scenario([[inv(['exc'], exc=e, dur=0, is_async=is_async, form=form)]], 'search'))
+        out.append(scenario([[inv(['retexc'], exc=e, dur=0)]], 'search'))
     out.append(scenario([[inv(['ret'], dur=1), inv(['ret'], dur=1)]], 'search'))
     out.append(scenario([[inv(['ret'], dur=2, size=1 << 20)]], 'search'))
     for c in SPAWNS:
@@ -680,9 +823,22 @@ def search(rng, tier, near):
 
 # ------------------------------------------------------------------------------------------------ implementation side
 
-def run_one(runner, case, env):
+def ticker_judged(x):
+    """the invocations the non-blocking clause is judged on with the ticker: the callee deliberately takes >= LONG_DUR quanta (the loop has
+    that long to run other tasks), the event loop is not crowded, no child lingers (those scenarios are judged on the measured stall), the
+    loop is not frozen on purpose by the observer (blocker)"""
+    if x.get('blocker') or any('linger' in v for v in x['invs']):
+        return []
+    crowded = {i for rd in (x.get('rounds') or [x['tasks']]) if len(rd) > TICKER_MAX_CHAINS for ids in rd for i in ids}
+    return [i for i, v in enumerate(x['invs']) if v['dur'] >= LONG_DUR and i not in crowded and v['callee'] != ['death', 'beforeRun']]
+
+
+def run_one(runner, case, env, scale=1):
     x = case['x']
-    sc = {'invs': x['invs'], 'tasks': x['tasks'], 'rounds': x.get('rounds'), 'blocker': x.get('blocker', 0), 'q': Q, 'watchdog': WATCHDOG}
+    watchdog = WATCHDOG * scale
+    hard = watchdog + (HARD - WATCHDOG)
+    sc = {'invs': x['invs'], 'tasks': x['tasks'], 'rounds': x.get('rounds'), 'blocker': x.get('blocker', 0), 'q': Q, 'watchdog': watchdog,
+          'control': CONTROL_S if (ticker_judged(x) or any('linger' in v for v in x['invs'])) else 0}
     t0 = time.time()
     dbg = os.environ.get('C17_DEBUG')
     p = subprocess.Popen([sys.executable, '-B', runner, json.dumps(sc)], stdout=subprocess.PIPE,
@@ -690,7 +846,7 @@ def run_one(runner, case, env):
     out, timed_out = b'', False
     try:
         # the hard limit is per event loop: the runner writes a line when a round has ended, the last line is its report
-        deadline = time.time() + HARD
+        deadline = time.time() + hard
         while True:
             ready, _, _ = select.select([p.stdout], [], [], max(0.0, min(0.2, deadline - time.time())))
             if ready:
@@ -699,7 +855,7 @@ def run_one(runner, case, env):
                     break
                 out += chunk
                 if b'\n' in chunk:
-                    deadline = time.time() + HARD
+                    deadline = time.time() + hard
             elif p.poll() is not None:
                 # the runner has ended (children of hung invocations may still hold the pipe open): read what it wrote and stop
                 while select.select([p.stdout], [], [], 0)[0]:
@@ -730,19 +886,28 @@ def run_one(runner, case, env):
                     'released': None, 'pid_differs': [None] * n, 'ticker_ok': None, 'wall_s': round(time.time() - t0, 2)}
         # nothing came back within the hard limit: the event loop itself was frozen (synchronous block) — everything hangs
         return {'out': [['hang']] * n, 'hang': True, 'frozen': True, 'terminates': False, 'released': None,
-                'pid_differs': [None] * n, 'ticker_ok': None, 'wall_s': round(time.time() - t0, 2)}
+                'pid_differs': [None] * n, 'ticker_ok': None, 'watchdog_s': watchdog, 'hard_s': hard, 'wall_s': round(time.time() - t0, 2)}
     r = json.loads(line[0])
     outs = [['hang'] if o[0] in ('hang', 'notrun') else o for o in r['out']]
     tick_bad = []
     lingers = [s['linger'] for s in x['invs'] if 'linger' in s]
-    # the 10 ms ticker is judged for invocations made in an event loop with at most TICKER_MAX_CHAINS concurrent chains: with dozens at
-    # once the loop legitimately spends its time in the synchronous statements of the OTHER invocations (fork inside Process.start(), recv,
-    # join of a child that has just sent) — there "other tasks run" is witnessed by those invocations completing
-    crowded = {i for rd in (x.get('rounds') or [x['tasks']]) if len(rd) > TICKER_MAX_CHAINS for ids in rd for i in ids}
-    if not x.get('blocker'):
-        for i, (w, k) in enumerate(zip(r['wall'], r['ticks'])):
-            if i not in crowded and r['out'][i][0] not in ('hang', 'notrun') and w >= 0.15 and k < max(2, int(w / 0.01 * 0.1)):
-                tick_bad.append([i, w, k])
+    # the ticker: ticks an invocation saw while it was pending, against what the CONTROL ticker of the same process got per second right
+    # before the scenario (a plain asyncio.sleep, nothing of the library running) over the time the callee deliberately takes.  A control
+    # that is itself starved says the machine is too busy: no verdict (ticker_ok None), the scenario is run again alone.
+    judged = ticker_judged(x)
+    ctl = r.get('control')
+    ticker_ok, control_starved = None, False
+    if judged:
+        if not ctl or ctl['rate'] < CONTROL_MIN_RATE:
+            control_starved = True
+        else:
+            for i in judged:
+                if r['out'][i][0] in ('hang', 'notrun'):
+                    continue
+                want = ctl['rate'] * x['invs'][i]['dur'] * Q
+                if r['ticks'][i] < TICKER_FRACTION * want:
+                    tick_bad.append([i, r['wall'][i], r['ticks'][i], round(want, 1)])
+            ticker_ok = not tick_bad
     released = None
     if not r['hang']:
         released = (r['fd_delta'] == 0 and r['children_left'] == 0 and r['open_conns'] == 0 and r['selector_delta'] == 0)
@@ -750,7 +915,8 @@ def run_one(runner, case, env):
             'hang': r['hang'], 'frozen': False, 'terminates': not r['hang'], 'released': released,
             'resources': {'fd_delta': r['fd_delta'], 'children_left': r['children_left'], 'open_conns': r['open_conns'],
                           'selector_delta': r['selector_delta']},
-            'pid_differs': r['pid_differs'], 'ticker_ok': not tick_bad, 'ticker_bad': tick_bad, 'order': r['order'],
+            'pid_differs': r['pid_differs'], 'ticker_ok': ticker_ok, 'ticker_bad': tick_bad, 'ticker_judged': judged, 'control': ctl,
+            'control_starved': control_starved, 'watchdog_s': watchdog, 'order': r['order'],
             'left_after_await': r.get('left_after_await', [0] * n),
             'direct': {k: (v['out'][:2] if v['out'][0] != 'other' else ['other', v['out'][1]]) for k, v in (r.get('direct') or {}).items()},
             'stall_s': r.get('stall', 0) if lingers else None,
@@ -766,7 +932,53 @@ def run_impl(cases):
         env = dict(os.environ)
         env['PYTHONDONTWRITEBYTECODE'] = '1'
         with ThreadPoolExecutor(max_workers=WORKERS) as ex:
-            return list(ex.map(lambda c: run_one(runner, c, env), cases))
+            res = list(ex.map(lambda c: run_one(runner, c, env), cases))
+        # ---- nothing timing-dependent counts on the strength of one run made while a dozen scenarios (some with dozens of children) and
+        # whatever else the machine is doing compete for the cores.  The watchdog (HANG), the ticker and the measured stall depend on the
+        # load; so every SUSPECTED failure — a property failure that is not a recorded finding, or a disagreement with the model — is
+        # re-run ALONE up to CONFIRM_RUNS times with watchdog and hard limit CONFIRM_SCALE times longer and counts only if it shows again
+        # every time (a deterministic defect does; scheduling noise does not).  The first confirmed suspect establishes the violation:
+        # the remaining ones keep their first-run result.  A scenario whose control ticker was starved has no ticker verdict: it is run
+        # again alone as well.  All of it is recorded in the result (confirm_runs, first_run) and counted in the evidence.
+        import core
+        model = core.run_driver(cases)
+
+        def suspect(c, r, m):
+            j = judge(c, r, m)
+            return bool((j['pfail'] and not j['finding']) or not j['corr'])
+        def confirm(k):
+            """re-run scenario k alone until the suspicion does not show (-> False, the passing run is kept) or it has shown CONFIRM_RUNS times"""
+            first = res[k]
+            # (a scenario that is the only one of this call — a replay — ran alone the first time already: that run counts as one)
+            for attempt in range(2 if len(cases) == 1 else 1, CONFIRM_RUNS + 1):
+                r2 = run_one(runner, cases[k], env, scale=CONFIRM_SCALE)
+                r2['confirm_runs'] = attempt
+                r2['first_run'] = first.get('first_run') or {f: first.get(f) for f in ('out', 'hang', 'frozen', 'ticker_bad', 'stall_s', 'resources', 'control', 'wall_s')}
+                for f in ('control_reruns',):
+                    if f in first:
+                        r2[f] = first[f]
+                res[k] = r2
+                if not suspect(cases[k], r2, model[k]):
+                    r2['suspicion_not_reproduced'] = True
+                    return False
+            return True
+        confirmed = False
+        for k in sorted((k for k in range(len(cases)) if suspect(cases[k], res[k], model[k])), key=lambda k: len(json.dumps(cases[k]['c']))):
+            if confirmed:
+                break
+            confirmed = confirm(k)
+        for k in [k for k in range(len(cases)) if res[k].get('control_starved') and not res[k].get('confirm_runs')][:CONTROL_RERUNS]:
+            if confirmed:
+                break
+            for attempt in (1, 2):
+                r2 = run_one(runner, cases[k], env, scale=CONFIRM_SCALE)
+                r2['control_reruns'] = attempt
+                if not r2.get('control_starved'):
+                    break
+            res[k] = r2
+            if suspect(cases[k], r2, model[k]):
+                confirmed = confirm(k)
+        return res
     finally:
         shutil.rmtree(d, ignore_errors=True)
 
@@ -802,10 +1014,10 @@ def judge(case, impl, model):
         if pfail:
             break
         o = impl['out'][i]
-        kind = x['invs'][i]['callee']
+        kind = x['invs'][i]['callee'] + ([x['invs'][i]['exc']] if 'exc' in x['invs'][i] else [])
         if o == ['hang'] and s['terminates']:
             waiting = [j for j in range(n) if i in (x['invs'][j].get('gate') or [])]
-            pfail = (f"HANG: invocation {i} (callee {kind}) was still pending {WATCHDOG} s after the start"
+            pfail = (f"HANG: invocation {i} (callee {kind}) was still pending {impl.get('watchdog_s', WATCHDOG)} s after the start"
                      + (' — the whole event loop was frozen' if impl.get('frozen') else '')
                      + (f"; the callees of invocations {waiting} end only after it has handed over its result (they wait for an event the caller "
                         f"sets then): it has to end while they are still running" if waiting else '')
@@ -820,7 +1032,8 @@ def judge(case, impl, model):
         elif impl['pid_differs'][i] is False:
             pfail = f"invocation {i} ran in the parent process"
     if not pfail and impl['ticker_ok'] is False and not stalled:
-        pfail = f"the event loop did not run other tasks while an invocation was pending: [invocation, wall s, ticks] {impl['ticker_bad']}"
+        pfail = (f"the event loop did not run other tasks while an invocation was pending: [invocation, wall s, ticks of a 10 ms ticker, ticks the "
+                 f"control ticker got in the callee's {LONG_DUR * Q}+ s] {impl['ticker_bad']} (control: {impl.get('control')})")
     if not pfail and s['released'] and any(impl.get('left_after_await') or []):
         i = next(i for i, k in enumerate(impl['left_after_await']) if k)
         pfail = (f"invocation {i} (callee {x['invs'][i]['callee']}" + (f", child lingers {x['invs'][i]['linger']} s after its send" if 'linger' in x['invs'][i] else '')
@@ -856,7 +1069,16 @@ def extra_coverage(results):
         if i.get('stall_s') is not None:
             stalls.append(i['stall_s'])
         direct += len(i.get('direct') or {})
-    return {'distinct_completion_orders_up_to_4': len(orders), 'scenario_wall_max_s': max(walls or [0]),
+    rates = [i['control']['rate'] for (c, i, m, j) in results if i.get('control')]
+    return {'suspected_failures_rerun_alone': sum(1 for (c, i, m, j) in results if i.get('confirm_runs')),
+            'suspicions_not_reproduced_alone (scheduling noise)': sum(1 for (c, i, m, j) in results if i.get('suspicion_not_reproduced')),
+            'suspicions_reproduced_in_every_run_alone': sum(1 for (c, i, m, j) in results if i.get('confirm_runs') == CONFIRM_RUNS and not i.get('suspicion_not_reproduced')),
+            'confirmation_runs_total': sum(i.get('confirm_runs', 0) for (c, i, m, j) in results),
+            'scenarios_rerun_because_the_control_ticker_was_starved': sum(1 for (c, i, m, j) in results if i.get('control_reruns')),
+            'scenarios_without_ticker_verdict (control starved also alone)': sum(1 for (c, i, m, j) in results if i.get('control_starved')),
+            'invocations_judged_with_the_ticker': sum(len(i.get('ticker_judged') or []) for (c, i, m, j) in results if i.get('ticker_ok') is not None),
+            'control_ticker_rate_min_median_per_s': [round(min(rates), 1), round(sorted(rates)[len(rates) // 2], 1)] if rates else None,
+            'distinct_completion_orders_up_to_4': len(orders), 'scenario_wall_max_s': max(walls or [0]),
             'invocations_compared_with_a_direct_call': direct, 'linger_scenarios': len(stalls),
             'max_event_loop_stall_s_in_linger_scenarios': max(stalls or [0]),
             'hang_watchdog_s': WATCHDOG, 'level_note': 'proof about the protocol model + correspondence on observable facts (partial: see assumptions)'}
